@@ -1,5 +1,5 @@
 CONSTANTS
-  Fresh <- Fresh3
+  Fresh <- Fresh4
   PreScopes = {"_PR_", "_TZ_"}
   MaxProd = 0  MaxTables = 1  MaxDepth = 6
   OpenKinds = {}  DeclKindsOn = {}
@@ -7,7 +7,7 @@ CONSTANTS
   FieldKinds = {}
   ScopeOn = FALSE  FieldOn = FALSE  MethodFlags = {}  StmtKinds = {}  MaxStmts = 0
   Widths = {}
-  ChainItems = 3
+  ChainItems = 4
   Excluded = {"D1", "D1b", "D2", "D2c", "D3", "D5", "D7", "D8", "D9", "D10", "D11"}
   Emit = TRUE  Bug = ""
 INIT Init
